@@ -106,6 +106,8 @@ pub struct GenParams {
     /// only specifications whose declared degrees are exact and whose evaluation domain is tight
     /// (what winterfell's debug-build self-checks demand of an AIR)
     pub exact: bool,
+    /// upper bound on the number of main-segment assertions (0 = default 6)
+    pub max_assertions: usize,
 }
 
 impl Spec {
@@ -304,7 +306,7 @@ fn gen_spec_once(rng: &mut Rng, field: FieldSpec, gp: &GenParams) -> Spec {
         let stride = if n / stride >= 64 { stride } else { 2 };
         try_add(AssertSpec { kind: 2, col: rng.usize(width), first: rng.usize(stride), stride, values: vec![] }, &mut used, &mut assertions);
     }
-    let want = rng.range(1, 6);
+    let want = rng.range(1, if gp.max_assertions == 0 { 6 } else { gp.max_assertions });
     for _ in 0..want * 3 {
         if assertions.len() >= want + gp.long_sequence as usize {
             break;
